@@ -120,8 +120,8 @@ def load_known(prop):
                 else:
                     what.append(t)
             fields["what"] = " ".join(what)
-            if fields.get("property") != prop:
-                continue
+            # a finding is identified by its obligation (+ trail): the same obligation is part of every property whose
+            # closure contains the function, so a listed finding applies to all of them
             (known if kind.strip() == "known" else fixed).append(fields)
     return known, fixed
 
@@ -157,6 +157,7 @@ def main(argv=None):
         from .interp import Interp
         from .contracts import DB
         from . import props as props_mod
+        from . import propmeta  # noqa
         repo = Repo()
         I = Interp(repo, DB)
     except Exception:
